@@ -64,7 +64,7 @@ Section Proofs.
   Variable val : Type.
   Variable rt : val -> val.
   Variable vnet : Z -> val.
-  Variable vfront : val.
+  Variable vfront : Z -> val.
   Variable vempty : val.
   Variable route : alist val -> option Z.
   Variable kinst : Z.
@@ -143,7 +143,7 @@ Section Proofs.
   Proof.
     induction rh as [|o older IH]; simpl.
     - split; [discriminate | intros [m H]; discriminate].
-    - destruct o as [s|s|s k v|s k|s|s|b s|b k v|b k|b|b|b|b acts|s b]; simpl; try exact IH.
+    - destruct o as [s|s|s k v|s k|s|s|b s|b k v|b k|b|b|b|b acts|s b|s b]; simpl; try exact IH.
       + destruct (Z.eqb s sid); [|exact IH].
         destruct (conn_r older sid) eqn:C; [split; eauto | exact IH | exact IH].
       + destruct (Z.eqb s sid); [|exact IH].
@@ -167,7 +167,7 @@ Section Proofs.
   Lemma fmap_sorted rh sid m : fmap_r rh sid = Some m -> sorted m.
   Proof.
     revert m. induction rh as [|o older IH]; intros m; simpl; [discriminate|].
-    destruct o as [s|s|s k v|s k|s|s|b s|b k v|b k|b|b|b|b acts|s b]; simpl; try apply IH.
+    destruct o as [s|s|s k v|s k|s|s|b s|b k v|b k|b|b|b|b acts|s b|s b]; simpl; try apply IH.
     - destruct (Z.eqb s sid); [|apply IH]. destruct (conn_r older sid); try apply IH.
       intro H. inv H. unfold Model.init_map. apply sorted_aset, sorted_aset. exact I.
     - destruct (Z.eqb s sid); [discriminate | apply IH].
@@ -185,7 +185,7 @@ Section Proofs.
   Lemma bnew_sorted rh b : sorted (bnew_r rh b).
   Proof.
     induction rh as [|o older IH]; simpl; [exact I|].
-    destruct o as [s|s|s k v|s k|s|s|b0 s|b0 k v|b0 k|b0|b0|b0|b0 acts|s b0]; simpl; try exact IH.
+    destruct o as [s|s|s k v|s k|s|s|b0 s|b0 k v|b0 k|b0|b0|b0|b0 acts|s b0|s b0]; simpl; try exact IH.
     - destruct (Z.eqb b0 b); [|exact IH]. destruct (bsid_r older b); [apply sorted_aset; exact IH | exact I].
     - destruct (Z.eqb b0 b); [|exact IH]. destruct (bsid_r older b); [apply sorted_script_new; exact IH | exact I].
   Qed.
@@ -194,7 +194,7 @@ Section Proofs.
     bsid_r rh b = None -> bnew_r rh b = [] /\ bdirty_r rh b = false /\ bdata_r rh b = [].
   Proof.
     induction rh as [|o older IH]; simpl; [auto|].
-    destruct o as [s|s|s k v|s k|s|s|b0 s|b0 k v|b0 k|b0|b0|b0|b0 acts|s b0]; simpl; try exact IH.
+    destruct o as [s|s|s k v|s k|s|s|b0 s|b0 k v|b0 k|b0|b0|b0|b0 acts|s b0|s b0]; simpl; try exact IH.
     - destruct (Z.eqb b0 b); [|exact IH].
       destruct (bsid_r older b) eqn:B; [discriminate|].
       destruct (conn_r older s); [|discriminate|discriminate]. intros _. destruct (IH eq_refl) as [N [D _]]. auto.
@@ -202,6 +202,11 @@ Section Proofs.
     - destruct (Z.eqb b0 b); [|exact IH]. intro H. destruct (IH H) as [N [_ D]]. auto.
     - destruct (Z.eqb b0 b); [|exact IH]. intro H. rewrite H. destruct (IH H) as [N [_ D]]. auto.
     - destruct (Z.eqb b0 b); [|exact IH]. intro H. rewrite H. auto.
+    - destruct (Z.eqb b0 b); [|exact IH].
+      destruct (bsid_r older b) eqn:B; [discriminate|].
+      destruct (conn_r older s) eqn:C; try discriminate; intros _; destruct (IH eq_refl) as [N [D _]];
+        (destruct (fmap_r older s) as [m|] eqn:F;
+         [assert (X : conn_r older s = CLive) by (apply fmap_live; eauto); congruence | auto]).
     - destruct (Z.eqb b0 b); [|exact IH].
       destruct (bsid_r older b) eqn:B; [discriminate|].
       destruct (conn_r older s) eqn:C; try discriminate; intros _; destruct (IH eq_refl) as [N [D _]];
@@ -257,7 +262,7 @@ Section Proofs.
     intro R. assert (LV := fun sid => rel_live rh s sid R).
     assert (CN := fun sid => rel_conn_none rh s sid R).
     destruct R as [RF RB].
-    destruct o as [s0|s0|s0 k v|s0 k|s0|s0|b0 s0|b0 k v|b0 k|b0|b0|b0|b0 acts|s0 b0]; simpl.
+    destruct o as [s0|s0|s0 k v|s0 k|s0|s0|b0 s0|b0 k v|b0 k|b0|b0|b0|b0 acts|s0 b0|s0 b0]; simpl.
     - (* OConnect *)
       destruct (aget s0 (front val s)) as [fs|] eqn:A; simpl.
       + split; [|exact RB]. intro sid. rewrite RF. unfold fstate_r. simpl.
@@ -399,6 +404,23 @@ Section Proofs.
         * intro b. rewrite RB. unfold bstate_r. simpl.
           destruct (Z.eqb_spec b0 b); [|reflexivity]. subst.
           rewrite RB in A. unfold bstate_r in A. destruct (bsid_r rh b); [discriminate | reflexivity].
+    - (* OForwardKeepN *)
+      rewrite LV. destruct (fmap_r rh s0) as [m|] eqn:F; simpl.
+      + assert (C : conn_r rh s0 = CLive) by (apply fmap_live; eauto).
+        destruct (aget b0 (backs val s)) as [bs|] eqn:A; simpl.
+        * split; [exact RF|]. intro b. rewrite RB. unfold bstate_r. simpl.
+          destruct (Z.eqb_spec b0 b); [|reflexivity]. subst.
+          rewrite RB in A. unfold bstate_r in A. destruct (bsid_r rh b); [reflexivity | discriminate].
+        * rewrite RB in A. unfold bstate_r in A. destruct (bsid_r rh b0) eqn:BS; [discriminate|].
+          split; [exact RF|]. intro b. cbn [front backs]. rewrite aget_aset_dec. unfold bstate_r. simpl.
+          destruct (Z.eqb_spec b b0).
+          -- subst. rewrite Z.eqb_refl, BS, C, F. destruct (no_handle rh b0 BS) as [N1 [N2 _]]. rewrite N1, N2. reflexivity.
+          -- destruct (Z.eqb_spec b0 b); [congruence|]. rewrite RB. reflexivity.
+      + split; [exact RF|]. intro b. rewrite RB. unfold bstate_r. simpl.
+        destruct (Z.eqb_spec b0 b); [|reflexivity]. subst.
+        destruct (bsid_r rh b) eqn:BS; [reflexivity|].
+        destruct (conn_r rh s0) eqn:C; try reflexivity.
+        apply fmap_live in C. destruct C as [m C]. congruence.
     - (* OForwardKeep *)
       rewrite LV. destruct (fmap_r rh s0) as [m|] eqn:F; simpl.
       + assert (C : conn_r rh s0 = CLive) by (apply fmap_live; eauto).
@@ -466,7 +488,7 @@ Section Proofs.
     assert (LV := fun sid => rel_live (rev h) (final h) sid R).
     assert (CN := fun sid => rel_conn_none (rev h) (final h) sid R).
     destruct R as [RF RB]. unfold Spec.spec_obs, Spec.forward_spec, Spec.fmap, Spec.bsid, Spec.conn_of, Spec.bnew, Spec.bdata.
-    destruct o as [s0|s0|s0 k v|s0 k|s0|s0|b0 s0|b0 k v|b0 k|b0|b0|b0|b0 acts|s0 b0]; simpl.
+    destruct o as [s0|s0|s0 k v|s0 k|s0|s0|b0 s0|b0 k v|b0 k|b0|b0|b0|b0 acts|s0 b0|s0 b0]; simpl.
     - destruct (aget s0 (front val (final h))) as [fs|] eqn:A.
       + simpl. destruct (conn_r (rev h) s0) eqn:C; [|reflexivity|reflexivity].
         apply CN in C. congruence.
@@ -489,6 +511,7 @@ Section Proofs.
       rewrite LV. destruct (fmap_r (rev h) sd); reflexivity.
     - rewrite RB. unfold bstate_r. destruct (bsid_r (rev h) b0) as [sd|]; [|reflexivity]. simpl.
       rewrite LV. destruct (fmap_r (rev h) sd); [destruct (has_kick acts)|]; reflexivity.
+    - rewrite LV. destruct (fmap_r (rev h) s0); reflexivity.
     - rewrite LV. destruct (fmap_r (rev h) s0); reflexivity.
   Qed.
 
@@ -538,7 +561,7 @@ Section Proofs.
   Theorem frame h o sid : writes_to h o <> Some sid -> fmap (h ++ [o]) sid = fmap h sid.
   Proof.
     intro N. rewrite fmap_snoc. unfold Spec.fmap.
-    destruct o as [s0|s0|s0 k v|s0 k|s0|s0|b0 s0|b0 k v|b0 k|b0|b0|b0|b0 acts|s0 b0]; simpl in *; try reflexivity.
+    destruct o as [s0|s0|s0 k v|s0 k|s0|s0|b0 s0|b0 k v|b0 k|b0|b0|b0|b0 acts|s0 b0|s0 b0]; simpl in *; try reflexivity.
     - destruct (Z.eqb_spec s0 sid); [congruence | reflexivity].
     - destruct (Z.eqb_spec s0 sid); [congruence | reflexivity].
     - destruct (Z.eqb_spec s0 sid); [congruence | reflexivity].
@@ -750,7 +773,8 @@ Section Proofs.
 
   Lemma bsid_step rh o b s : bsid_r rh b = Some s -> bsid_r (o :: rh) b = Some s.
   Proof.
-    intro H. destruct o as [s0|s0|s0 k v|s0 k|s0|s0|b0 s0|b0 k v|b0 k|b0|b0|b0|b0 acts|s0 b0]; simpl; try exact H.
+    intro H. destruct o as [s0|s0|s0 k v|s0 k|s0|s0|b0 s0|b0 k v|b0 k|b0|b0|b0|b0 acts|s0 b0|s0 b0]; simpl; try exact H.
+    - destruct (Z.eqb b0 b); [|exact H]. rewrite H. reflexivity.
     - destruct (Z.eqb b0 b); [|exact H]. rewrite H. reflexivity.
     - destruct (Z.eqb b0 b); [|exact H]. rewrite H. reflexivity.
   Qed.
@@ -772,6 +796,56 @@ Section Proofs.
     - rewrite rev_unit. simpl. rewrite Z.eqb_refl, B.
       assert (C : conn_r (rev h) sid = CLive) by (apply fmap_live; eauto). rewrite C. reflexivity.
     - rewrite bdata_snoc. simpl. rewrite Z.eqb_refl, B, F. reflexivity.
+  Qed.
+
+  (* the same when the handler was reached by a forwarded NOTIFICATION: nothing is answered,
+     and the kept session is the notifying connection's, with the same contents *)
+  Theorem kept_session_notify h sid b m :
+    fmap h sid = Some m -> bsid h b = None ->
+    obs_at h (OForwardKeepN sid b) = BUnit /\
+    bsess_of val rt vnet vfront vempty (h ++ [OForwardKeepN sid b]) b =
+    bsess_of val rt vnet vfront vempty (h ++ [OForwardKeep sid b]) b.
+  Proof.
+    intros F B. split.
+    - rewrite obs_spec. simpl. rewrite F. reflexivity.
+    - unfold Spec.bsess_of, Spec.bsid, Spec.bdata, Spec.bnew, Spec.bdirty. rewrite !rev_unit. reflexivity.
+  Qed.
+
+  (* ... and it stays so: replacing, anywhere in a history, notifications by requests changes
+     neither any connection's map nor any handle's session, ever after *)
+  Definition as_request (o : op) : op :=
+    match o with OForwardKeepN s b => OForwardKeep s b | _ => o end.
+
+  Lemma as_request_ids rh :
+    (forall sid, conn_r (map as_request rh) sid = conn_r rh sid) /\
+    (forall b, bsid_r (map as_request rh) b = bsid_r rh b).
+  Proof.
+    induction rh as [|o older [IC IB]]; [split; reflexivity|].
+    split; intro x; destruct o; simpl; rewrite ?IC, ?IB; reflexivity.
+  Qed.
+
+  Lemma as_request_maps rh :
+    (forall b, bnew_r (map as_request rh) b = bnew_r rh b) /\
+    (forall b, bdirty_r (map as_request rh) b = bdirty_r rh b) /\
+    (forall sid, fmap_r (map as_request rh) sid = fmap_r rh sid) /\
+    (forall b, bdata_r (map as_request rh) b = bdata_r rh b).
+  Proof.
+    induction rh as [|o older [IN [ID [IF IA]]]]; [repeat split; reflexivity|].
+    destruct (as_request_ids older) as [IC IB].
+    repeat split; intro x; destruct o; simpl; unfold Spec.effective_push, Spec.live_r;
+      rewrite ?IC, ?IB, ?IN, ?ID, ?IF, ?IA; try reflexivity;
+      repeat match goal with
+             | |- context [match bsid_r older ?b with _ => _ end] => destruct (bsid_r older b)
+             end; rewrite ?IC, ?IB, ?IN, ?ID, ?IF, ?IA; reflexivity.
+  Qed.
+
+  Theorem notify_as_request h :
+    (forall sid, fmap (map as_request h) sid = fmap h sid) /\
+    (forall b, bsess_of val rt vnet vfront vempty (map as_request h) b = bsess_of val rt vnet vfront vempty h b).
+  Proof.
+    unfold Spec.bsess_of, Spec.fmap, Spec.bsid, Spec.bdata, Spec.bnew, Spec.bdirty. rewrite <- map_rev.
+    destruct (as_request_ids (rev h)) as [IC IB]. destruct (as_request_maps (rev h)) as [IN [ID [IF IA]]].
+    split; intro x; rewrite ?IB, ?IN, ?ID, ?IF, ?IA; reflexivity.
   Qed.
 
   (* whatever it does later through that session changes only that connection's map *)
